@@ -10,7 +10,8 @@ import itertools
 from harness.core import Prop
 from harness.props import _stream as S
 
-STATUSES = [None, 'inprogress', 'success', 'fail', 'uxsuccess', 'skip', 'xfail', 'exists']
+#: None and every member of the code's STATES table (S.extract_tables checks that the table has no member this list lacks)
+STATUSES = [None, 'inprogress', 'success', 'fail', 'uxsuccess', 'skip', 'xfail', 'exists', 'unknown']
 
 
 def ev(tid=None, status=None, tags=None, runnable=True, fname=None, fbytes=None, eof=False, mime=None, route=None, ts=None):
@@ -45,10 +46,10 @@ class C11(Prop):
     time_limit = {'quick': 60, 'thorough': 600}
     rule = ('random decorator trees of depth 1-3, fan-out 1-3 over recording sinks and StreamFailFast leaves (copy / tagger with add+discard '
             'sets over 4 tags / timestamper / StreamToQueue with code "0","1","ab" or the empty code drained into its inner result); 0-3 caller tag objects '
-            '(set or frozenset, possibly empty, re-used by several calls); call scripts startTestRun, 0-5 status (all ten fields varied; test ids, route codes '
+            '(set or frozenset, possibly empty, re-used by several calls); call scripts startTestRun, 0-5 status (all ten fields varied; test_status = None or any member of the code\'s STATES table incl. unknown; test ids, route codes '
             'and file names incl. the empty string; 30% with one event sent twice), '
             'stopTestRun, 15% in unusual order. thorough adds every tree with <= 2 inner nodes on a path and fan-out <= 2 (taggers that add, discard everything, or do nothing) over a fixed '
-            '7-call script (tags None, non-empty, empty). non-trivial = at least one status call and (>= 2 leaves or a field-owning decorator on some path); '
+            '7-call script (tags None, non-empty, empty) and over a script with one event per status (None and every member of STATES, incl. unknown). non-trivial = at least one status call and (>= 2 leaves or a field-owning decorator on some path); '
             'distinct = distinct input S-expression')
     assumptions = ['translator tie (harness/pystream.py): TimestampingStreamResult.status and StreamToQueue.route_code are symbolically executed; the queue dict, the status signatures, CopyStreamResult and StreamFailFast.status are matched on every run; trusted: the translator and the reading of the recognised forms by TTV/Model/DecoSrc.lean (_strict_map(methodcaller(...)) = call every target in order = the plain for loop); trusted normalisations before comparing: `timestamp or now` = `now if timestamp is None` (a datetime is never false), the timestamp written back into kwargs instead of popped and passed by keyword, a + "/" + b = "/".join((a, b)) = f"{a}/{b}" for str, dict(...) = dict literal with the key order immaterial, the adjusted route code / the dict bound to a local first, `in (…)` = `==`/`or` chain = early return on `not in` for StreamFailFast - the order of super() and the targets is asserted as written',
                    'datetime.now(utc) is an oracle value: canonicalised to `now` after checking it is tz-aware UTC and inside the run window',
@@ -204,8 +205,11 @@ class C11(Prop):
         calls = ['start', ['status', ev(0, 'inprogress', 0, ts=1)], ['status', ev(0, 'fail', 1, route='r')],
                  ['status', ev(1, 'success', None, fname=2, fbytes=[65])], ['status', ev(0, 'uxsuccess', 0)],
                  ['status', ev(1, 'success', 2)], 'stop']           # the last one carries an empty frozenset: not None
+        # one event per member of the status table (None and all of STATES), tags cycling None / set / frozenset
+        every = ['start'] + [['status', ev(k % 2, st, [None, 0, 1][k % 3], ts=k)] for k, st in enumerate(STATUSES)] + ['stop']
         for t in self.small_trees(2):
             yield [t, objs, calls]
+            yield [t, objs, every]
 
     # ----- evidence
     def walk(self, t, depth=0):
